@@ -25,6 +25,7 @@ type vxFaultClient struct {
 	listCalls  int
 	writeCalls int
 	breaks     int // downloads that failed mid-stream (at most one per scenario)
+	listBroke  bool // a listing broke off part-way (its consumer saw a prefix)
 }
 
 func (c *vxFaultClient) remoteMax() ltx.TXID {
@@ -61,7 +62,7 @@ func (c *vxFaultClient) LTXFiles(ctx context.Context, level int, seek ltx.TXID, 
 	if err == nil && c.faulty && vx.Fault("listBreaksOff") {
 		// a paginated listing whose later page cannot be fetched: some entries, then
 		// an error that only Err() and Close() report
-		return &vxBreakingIterator{FileIterator: itr, left: 1}, nil
+		return &vxBreakingIterator{FileIterator: itr, left: 1, onBreak: func() { c.listBroke = true }}, nil
 	}
 	return itr, err
 }
@@ -69,13 +70,17 @@ func (c *vxFaultClient) LTXFiles(ctx context.Context, level int, seek ltx.TXID, 
 // vxBreakingIterator yields `left` entries and then fails.
 type vxBreakingIterator struct {
 	ltx.FileIterator
-	left   int
-	broken bool
+	left    int
+	broken  bool
+	onBreak func()
 }
 
 func (it *vxBreakingIterator) Next() bool {
 	if it.left == 0 {
 		it.broken = true
+		if it.onBreak != nil {
+			it.onBreak()
+		}
 		return false
 	}
 	it.left--
@@ -254,7 +259,13 @@ func VxC05Compact() {
 		vx.Assert("cached-max-is-a-stored-file", exists(ci))
 	}
 	if err == nil {
-		vx.Assert("success-means-stored", info != nil && exists(info) && info.MinTXID == 2 && int(info.MaxTXID) == 1+k)
+		// a source listing that broke off part-way yields a shorter compaction (a prefix
+		// of the new source files), which the next pass continues: the file must still
+		// start where the level ended and hold exactly the range in its name
+		vx.Assert("success-means-stored", info != nil && exists(info) && info.MinTXID == 2 && info.MaxTXID >= 2 && int(info.MaxTXID) <= 1+k)
+		if info != nil && !c.listBroke {
+			vx.Assert("complete-listing-compacts-every-new-source", int(info.MaxTXID) == 1+k)
+		}
 		// and the stored file holds what its name says: the newest source's commit size
 		// (every source writes its own size; a file that left a source out shows it)
 		if info != nil && exists(info) {
@@ -270,19 +281,23 @@ func VxC05Compact() {
 			vx.Assert("no-partial-file-visible", derr == nil)
 		}
 	}
+	levelEnd := func() int {
+		end := 1
+		for _, f := range c.files {
+			if f.Level == 1 && int(f.MaxTXID) > end {
+				end = int(f.MaxTXID)
+			}
+		}
+		return end
+	}
+	before := levelEnd() // where level 1 ends after the first attempt (1: nothing stored)
 	c.faulty = false
 	info2, err2 := comp.Compact(ctx, 1)
-	stored := false
-	for _, f := range c.files {
-		if f.Level == 1 && f.MinTXID == 2 && int(f.MaxTXID) == 1+k {
-			stored = true
-		}
-	}
 	if err2 == nil {
-		vx.Assert("retry-writes-the-right-range", info2.MinTXID == 2 && int(info2.MaxTXID) == 1+k && stored)
+		vx.Assert("retry-writes-the-right-range", int(info2.MinTXID) == before+1 && int(info2.MaxTXID) == 1+k && levelEnd() == 1+k)
 	} else {
 		// only acceptable when the first attempt took effect although it reported failure
-		vx.Assert("retry-refused-only-if-already-stored", errors.Is(err2, ErrNoCompaction) && stored)
+		vx.Assert("retry-refused-only-if-already-stored", errors.Is(err2, ErrNoCompaction) && before == 1+k)
 	}
 	vx.Assert("level1-consistent", comp.VerifyLevelConsistency(ctx, 1) == nil)
 }
